@@ -282,6 +282,9 @@ func Define[C any](id, sub string, check func(C, *R)) *Prop[C] {
 	return p
 }
 
+// Check runs the bare check function on c (for sub-checks that build on another one's oracle).
+func (p *Prop[C]) Check(c C, r *R) { p.check(c, r) }
+
 // Eval runs the check on c, converting panics that escape the check into violations.
 func (p *Prop[C]) Eval(c C) (r *R) { return p.eval(c, true) }
 
